@@ -1,7 +1,7 @@
 (** XRef/PrefixProofs.v — C17 without parser oracles for files read through classic tables: the concrete
     readers of XRef/At.v (xref_at_tables, obj_at_parse) satisfy the premises of C17_load_invariant /
     C17_resolve_invariant, by XRef/LexShift.v and XRef/ParseShift.v. *)
-From PdfV Require Import Base.Prelude Gen.Generated XRef.Model XRef.Spec XRef.At XRef.LexShift XRef.HeaderProofs XRef.FrontProofs.
+From PdfV Require Import Base.Prelude Gen.Generated XRef.Model XRef.Spec XRef.At XRef.LexShift XRef.HeaderProofs XRef.FrontProofs XRef.TableProofs XRef.AtProofs XRef.MergeProofs.
 From PdfV Require Import Syn.Prim Syn.Parser Syn.ParserProofs.
 From PdfV Require Import XRef.ParseShift.
 
@@ -136,4 +136,44 @@ Proof.
   - apply (load_prefix (xref_at_tables R tid) p f (xref_at_tables_prefix R tid p f Htid) Hlen Hhdr Hnop Hwin).
   - apply (resolve_prefix prim (obj_at_parse R allow flags) (fun _ _ _ => Err E_OTHER) shift_prim p f
              (obj_at_parse_prefix R p f allow flags) (fun _ _ => eq_refl) Hlen).
+Qed.
+
+(** C02_resolve_latest behind a prefix: what the file without the prefix stores is what the prefixed file
+    yields, file ranges of streams moved by |p| *)
+Definition stored_shifted (k : N) (file : bytes) (n : N) (m : option mention) (r : res prim) : Prop :=
+  match m with
+  | Some (Direct g pos) => exists v, object_at file pos n g v /\ r = Ok (shift_prim k v)
+  | Some (Freed _ _) => r = Err E_FREE
+  | Some (Compressed _ _) => True
+  | None => r = Err E_NULLREF
+  end.
+
+Theorem resolve_latest_tables_prefixed : forall R tid allow (p file : bytes) (h : history) secss q0 secs0 d0 older size,
+  (forall e, tid (shift_dict (lenN p) e) = tid e) ->
+  find_sub xr_header p = None -> lenN p + lenN xr_header <= xr_header_window -> lenN (p ++ file) < usize_max ->
+  Forall2 represents secss h -> wf_history h ->
+  map snd ((q0, secs0) :: older) = rev secss ->
+  starts_with xr_header file = true -> startxref_at file q0 ->
+  section_at file q0 secs0 d0 -> t_size (tinfo_of tid d0) = Some size -> size <= xr_max_id ->
+  chain_at tid file 0 (t_prev (tinfo_of tid d0)) older -> NoDup (map fst older) ->
+  (forall n g pos, latest h n = Some (Direct g pos) -> exists v, object_at file pos n g v) ->
+  (forall n s i, latest h n <> Some (Compressed s i)) ->
+  exists t, load (xref_at_tables R tid) (p ++ file) = Ok (lenN p, t, tid d0) /\
+    forall n fuel, n < size ->
+      stored_shifted (lenN p) file n (latest h n)
+        (resolve_ref prim (obj_at_parse R allow F_ANY) (fun _ _ _ => Err E_OTHER) (S fuel) (p ++ file) (lenN p) t n).
+Proof.
+  intros R tid allow p file h secss q0 secs0 d0 older size Htid Hnop Hwin Hlen Hr Hwf Hmap Hhdr Hsx Hs Hsz Hm Hc Hnd Hobj Hnc.
+  assert (Hfl : lenN file < usize_max) by (rewrite lenN_app in Hlen; lia).
+  destruct (resolve_latest_tables_file R tid allow (fun _ _ _ => Err E_OTHER) file h secss q0 secs0 d0 older size
+              Hr Hwf Hmap Hhdr Hsx Hs Hsz Hm Hc Hnd Hfl Hobj Hnc) as (t & Hload & Hres).
+  destruct (tables_prefix_invariant R tid allow F_ANY p file Htid Hlen Hhdr Hnop Hwin) as [Hl Hv].
+  exists t. split; [apply (Hl 0 t (tid d0) Hload)|].
+  intros n fuel Hn. rewrite Hv. specialize (Hres n fuel Hn).
+  unfold stored in Hres. unfold stored_shifted.
+  destruct (latest h n) as [[g pos|s i|g nx]|].
+  - destruct Hres as [v [Ho Hr']]. exists v. split; [replace pos with (0 + pos) by lia; exact Ho|]. rewrite Hr'. reflexivity.
+  - exact I.
+  - rewrite Hres. reflexivity.
+  - rewrite Hres. reflexivity.
 Qed.
